@@ -119,3 +119,22 @@ Proof.
   - destruct (excl (getth s q)) eqn:He; [exfalso; exact (borrower_no_excl s c p q I El He)|reflexivity].
   - destruct (mustfree (getth s q)) eqn:Hm; [exfalso; exact (borrower_no_mustfree s c p q I El Hm)|reflexivity].
 Qed.
+
+(* what a borrower's code does with &handle is one event each: as_str / as_bytes = a read, clone = a relaxed increment.
+   Both are always enabled while the loan lasts (and, by [safe], never an error) *)
+Theorem borrower_read_enabled s c : Inv s -> c < length (ths s) -> started (getth s c) = true -> lend (getth s c) <> 0 ->
+  exists s', step s c AReadB = Ok s'.
+Proof.
+  intros I Hc Hst Hl. destruct (step s c AReadB) as [s'|e|] eqn:E; [eauto|exfalso; eapply safe; eauto|exfalso].
+  unfold step in E. destruct (Nat.ltb_spec c (length (ths s))); [|lia]. cbn [negb] in E. rewrite Hst in E. cbn [negb] in E.
+  destruct (Nat.eqb_spec (lend (getth s c)) 0); [contradiction|].
+  destruct (Mach.live s); cbn [negb] in E; [|discriminate]. destruct (cleb _ _); discriminate.
+Qed.
+Theorem borrower_clone_enabled s c : Inv s -> c < length (ths s) -> started (getth s c) = true -> lend (getth s c) <> 0 ->
+  exists s', step s c ACloneB = Ok s'.
+Proof.
+  intros I Hc Hst Hl. destruct (step s c ACloneB) as [s'|e|] eqn:E; [eauto|exfalso; eapply safe; eauto|exfalso].
+  unfold step in E. destruct (Nat.ltb_spec c (length (ths s))); [|lia]. cbn [negb] in E. rewrite Hst in E. cbn [negb] in E.
+  destruct (Nat.eqb_spec (lend (getth s c)) 0); [contradiction|].
+  destruct (Mach.live s); discriminate.
+Qed.
